@@ -162,6 +162,13 @@ def run(chk):
         src = P.HEAD + "  TSource { id: t0\n    " + body + "\n  }\n}\n"
         reqs.append({"id": "l%d" % n, "src": src, "type_name": "Doc", "modes": ["generate"]})
         meta["l%d" % n] = ("brokenbase-good" if ok else "unsupported", "binding", {"text": body, "why": "list / subscript spelling outside the documented subset"}, src)
+    # handler signatures: the parameter list is typed against the signal's arguments (shared with C13's rejection clause)
+    from checks import c13
+    for n, (what, text) in enumerate(c13.NEGATIVE + c13.POSITIVE):
+        ok = n >= len(c13.NEGATIVE)
+        src = P.HEAD + "  TSource { id: s0\n    " + text + "\n  }\n}\n"
+        reqs.append({"id": "h%d" % n, "src": src, "type_name": "Doc", "modes": ["generate"]})
+        meta["h%d" % n] = ("brokenbase-good" if ok else "unsupported", "binding", {"text": text, "why": "handler signature: " + what}, src)
     for n, (text, ok) in enumerate(BROKEN_BASE):
         src = P.HEAD + "  TBroken { id: br }\n  TSource { id: t0\n    " + text + "\n  }\n}\n"
         reqs.append({"id": "b%d" % n, "src": src, "type_name": "Doc", "modes": ["generate"]})
